@@ -44,7 +44,7 @@ var Props = []*h.Prop{
 		Stub:        append([]string{"the build configuration itself: the pure-Go back ends are compiled into the cgo binary under other type names and selected at run time through encoder.New (verif/rewrite encSeam); the four files that differ between the builds all run, the linker configuration of a CGO_ENABLED=0 binary does not"}, stubStore...),
 		Assumptions: []string{"only the four encoder back-end files differ between the build configurations (checked: no other file carries a cgo / goprobe_nolib* build constraint)", "fault-free configuration"}},
 	{ID: "C03", Run: c03,
-		Rule:        "one evaluation = one generated history of sessions whose timestamps come from a jumping clock (equal, backwards, before the day's first block, gaps of 2^32-1 and beyond, negative) and whose summaries reach beyond 2^32-1 / near 2^64, each checked accepted=>reopens equal / rejected=>day unchanged, followed by >= 30 malformed variants of the real .blockmeta (prefixes = torn metadata writes, bit flips, garbage, blown-up count and length fields) fed to the reader, the listing, the query engine and the writer's open path; non-trivial = every run; distinct = distinct event-log hash",
+		Rule:        "one evaluation = one generated history of sessions whose timestamps come from a jumping clock (equal, backwards, before the day's first block, gaps of 2^32-1 and beyond, negative) and whose summaries reach beyond 2^32-1 / near 2^64 - two in three written block by block through GPDir, one in three a flow-level write-out through the real DBWriter (day directory chosen from the stamp, drop counts 2^32-1 and beyond) -, each checked accepted=>reopens equal / rejected=>day unchanged, followed by >= 30 malformed variants of the real .blockmeta (prefixes = torn metadata writes, bit flips, garbage, blown-up count and length fields) fed to the reader, the listing, the query engine and the writer's open path; non-trivial = every run; distinct = distinct event-log hash",
 		Real:        realStore,
 		Stub:        stubStore,
 		Assumptions: []string{"a hang (as opposed to a panic) on malformed metadata would surface as a worker time-out (exit 2), not as a VIOLATION line"}},
